@@ -535,6 +535,12 @@ def c09(tr, cx):
                     if spec['priorities'][i['cls']] != i['prio']:
                         tr.v('C09', 'priority_not_matching_class', (k, nid, i['id'], i['cls'], i['prio']))
     for e in tr.events:
+        if e[0] == 'classchange_wait':
+            tr.count('C09.class_changes_while_waiting')
+            cct = spec.get('cct') or {}
+            if not (cct.get(e[4]) or {}).get(e[5]):
+                tr.v('C09', 'class_change_while_waiting_not_declared', (e[1], e[2], e[3], e[4], e[5]))
+            if not e[6] or e[7]: tr.v('C09', 'class_change_of_absent_or_served_customer', e[:8])
         if e[0] not in ('route', 'reroute_to'): continue
         if e[0] == 'reroute_to':
             _, t, nid, cid, dest, cls, route_before = e
@@ -863,13 +869,18 @@ def c12(tr, cx):
             tr.count('C12.interruptions')
             if not sv['preempt']: tr.v('C12', 'interrupted_in_nonpreemptive_schedule', e)
             if not timetable(sv, float(e[1]))[2]: tr.v('C12', 'interrupt_not_at_shift_end', e)
-    # pre-emptive schedules: every customer in service at a shift end is interrupted at that instant
-    for E, inner in groups_of(tr):
+    # pre-emptive schedules: every customer in service at a shift end is interrupted (or rerouted) at that instant
+    for gi, (E, inner) in enumerate(groups_of(tr)):
         if E[3] != 'shift_change': continue
         nid = E[2]
         sv = spec['nodes'][nid - 1]['servers']
-        if sv['kind'] != 'schedule' or not sv['preempt']: continue
-        # snapshot before this event
+        if sv['kind'] != 'schedule' or not sv['preempt'] or gi >= len(tr.snaps): continue
+        before = tr.snaps[gi]['nodes'][nid]
+        served = [i['id'] for i in before['inds'] if i['server'] is not None and i['id'] not in before['intr']]
+        hit = set(e[3] for e in inner if e[0] == 'interrupt' and e[2] == nid)
+        tr.count('C12.preemptive_shift_ends')
+        missing = [c for c in served if c not in hit]
+        if missing: tr.v('C12', 'in_service_at_preemptive_shift_end_not_interrupted', (E[1], nid, missing[:5]))
     # overtime entries (non-pre-emptive): detach time - shift end
     for nid, overtime in cx['overtime']:
         sv = spec['nodes'][nid - 1]['servers']
@@ -1000,6 +1011,12 @@ def c13(tr, cx):
             for e in inner:
                 if e[0] == 'exit': exits[E[1]].add(e[2])
     nb = 0; nq = 0
+    zs = [(p, cid in bk) for (t, nid, c, cid, n, truen, p) in tr.logs.blog if 0.0 < p < 1.0 and (cx['t_cut'] is None or t < cx['t_cut'])]
+    if len(zs) >= 30:
+        mean = sum(p for p, b in zs); var = sum(p * (1 - p) for p, b in zs); got = sum(1 for p, b in zs if b)
+        tr.count('C13.baulk_frequency_tests')
+        if var > 0 and abs(got - mean) / var ** 0.5 > 6.0:
+            tr.v('C13', 'baulk_frequency_far_from_probability', (len(zs), got, round(mean, 2), round(var ** 0.5, 2)))
     for (t, nid, c, cid, n, truen, p) in tr.logs.blog:
         if cx['t_cut'] is not None and t >= cx['t_cut']: continue
         tr.count('C13.baulk_decisions')
@@ -1119,6 +1136,8 @@ def min_service(spec):
         if k == 'det': return d['v']
         if k == 'seq': return min(d['s'])
         if k == 'pmf': return min(d['vals'])
+        if k == 'timedep': return min(d['vals'])
+        if k == 'statedep': return d['base']
         return 1e-12
     return min(mn(d) for c in spec['classes'] for d in spec['services'][c])
 
